@@ -98,7 +98,9 @@ Inductive case :=
        (checks : list hcheck) (catalog : list centry) (impl : str)
 (* the real watchBackend on scripted channels *)
 | CWatch (texts : list str) (builds : list (nat * nat * option tbl)) (evs : list sev)
-         (impl : list (tbl * bool)).
+         (impl : list (tbl * bool))
+(* one manual config pushed by the real watchKV against the fake Consul's KV store *)
+| CKv (pairs : list (str * str)) (impl : str).
 
 Definition check_case (c : case) : N :=
   match c with
@@ -145,4 +147,12 @@ Definition check_case (c : case) : N :=
       let has_bad := existsb (fun b => match b with (_, _, None) => true | _ => false end) builds in
       let has_good := existsb (fun b => match b with (_, _, Some _) => true | _ => false end) builds in
       verdict same spec None (has_bad && has_good)
+  | CKv pairs impl =>
+      let same := beq impl (kv_text pairs) in
+      (* spec: the operator's values, trimmed, in key order, each introduced by a comment
+         line naming its key, separated by an empty line *)
+      let spec := list_eqb beq (split_byte impl 10)
+                    (match flat_map (fun p => [[]; s_kv_sep ++ fst p] ++ split_byte (trim_space (snd p)) 10) pairs with
+                     | [] => [[]] | _ :: r => r end) in
+      verdict same spec None (negb (Nat.eqb (length pairs) 0))
   end.
